@@ -41,24 +41,46 @@ type wpkt struct {
 	To      string
 }
 
-func coqOps(ops []opJ) string {
-	var sb strings.Builder
-	sb.WriteString("[")
-	for i, o := range ops {
-		if i > 0 {
-			sb.WriteString("; ")
-		}
-		if o.F {
-			sb.WriteString("WFlush")
-		} else {
-			sb.WriteString("WWrite " + hx.CoqBytes(hx.UnHex(o.W)))
-		}
+// coqList writes a list literal; long lists are written as the concatenation
+// of chunks, because Coq elaborates a list literal recursively (a literal of
+// 65536 elements overflows its stack).
+func coqList(items []string) string {
+	const chunk = 1000
+	if len(items) <= chunk {
+		return "[" + strings.Join(items, "; ") + "]"
 	}
-	sb.WriteString("]")
-	return sb.String()
+	var parts []string
+	for i := 0; i < len(items); i += chunk {
+		j := i + chunk
+		if j > len(items) {
+			j = len(items)
+		}
+		parts = append(parts, "["+strings.Join(items[i:j], "; ")+"]")
+	}
+	return "(concat [" + strings.Join(parts, "; ") + "])"
 }
 
-func coqN(n int) string { return fmt.Sprintf("(N.of_nat %d%%nat)", n) }
+func coqOps(ops []opJ) string {
+	items := make([]string, 0, len(ops))
+	for _, o := range ops {
+		if o.F {
+			items = append(items, "WFlush")
+		} else {
+			items = append(items, "WWrite "+hx.CoqBytes(hx.UnHex(o.W)))
+		}
+	}
+	return coqList(items)
+}
+
+func coqN(n int) string { return fmt.Sprintf("%d%%N", n) }
+
+// coqBigNat writes a nat that may be large without a large nat literal.
+func coqBigNat(n int) string {
+	if n < 1000 {
+		return hx.CoqNat(n)
+	}
+	return fmt.Sprintf("(N.to_nat %d%%N)", n)
+}
 
 func openLocal(r *rig, sid string, bs int, acked bool) (*ibb.Conn, error) {
 	ctx, cancel := context.WithTimeout(context.Background(), watchdog)
@@ -257,23 +279,18 @@ func (x *runner) runSender(c senderCase, origin string) bool {
 	x.res.Sample(k)
 
 	// ---- correspondence case ----
-	var sb strings.Builder
-	sb.WriteString("[")
+	var pkTerms []string
 	okNum := true
-	for i, p := range pk {
+	for _, p := range pk {
 		n, err := strconv.Atoi(p.Seq)
 		if err != nil || n < 0 {
 			okNum = false
 			break
 		}
-		if i > 0 {
-			sb.WriteString("; ")
-		}
-		sb.WriteString("mkpkt " + coqN(n) + " " + hx.CoqBytes([]byte(p.Data)))
+		pkTerms = append(pkTerms, "mkpkt "+coqN(n)+" "+hx.CoqBytes([]byte(p.Data)))
 	}
-	sb.WriteString("]")
 	if okNum {
-		x.sc.Add(fmt.Sprintf("mkscase %s %s %s %s %s", coqN(c.BS), coqN(c.Seq0), coqOps(c.Ops), sb.String(), hx.CoqNat(nBefore)), k)
+		x.sc.Add(fmt.Sprintf("mkscase %s %s %s %s %s", coqN(c.BS), coqN(c.Seq0), coqOps(c.Ops), coqList(pkTerms), coqBigNat(nBefore)), k)
 	}
 	return healthy
 }
